@@ -74,23 +74,10 @@ func newExpoHistogramDataPoint[N int64 | float64](
 
 // record adds a new measurement to the histogram. It will rescale the buckets if needed.
 func (p *expoHistogramDataPoint[N]) record(v N) {
-	p.count++
-
-	if !p.noMinMax {
-		if v < p.min {
-			p.min = v
-		}
-		if v > p.max {
-			p.max = v
-		}
-	}
-	if !p.noSum {
-		p.sum += v
-	}
-
 	absV := math.Abs(float64(v))
 
 	if float64(absV) == 0.0 {
+		p.account(v)
 		p.zeroCount++
 		return
 	}
@@ -119,7 +106,27 @@ func (p *expoHistogramDataPoint[N]) record(v N) {
 		bin = p.getBin(absV)
 	}
 
+	p.account(v)
 	bucket.record(bin)
+}
+
+// account adds v to the count, min, max and sum of the data point. It is
+// called only for measurements that are also counted in a bucket (or the zero
+// count), so that count always equals the zero count plus the bucket counts.
+func (p *expoHistogramDataPoint[N]) account(v N) {
+	p.count++
+
+	if !p.noMinMax {
+		if v < p.min {
+			p.min = v
+		}
+		if v > p.max {
+			p.max = v
+		}
+	}
+	if !p.noSum {
+		p.sum += v
+	}
 }
 
 // getBin returns the bin v should be recorded into.
